@@ -206,14 +206,28 @@ pub fn run(case: &Value) -> Result<Value> {
             json!({"ok": {"terms": terms(&f)}})
         }
         "substitute_function" => {
+            // The result may depend on the iteration order of the replacement map, so with "tries" the map is rebuilt
+            // (fresh RandomState) that many times and every distinct outcome is reported under "variants".
             let f: Function = msg(&case["f"])?;
-            let mut rep: HashMap<u64, Function> = HashMap::new();
-            for (k, v) in case["replacements"].as_object().ok_or_else(|| anyhow!("replacements"))? {
-                rep.insert(k.parse()?, msg(v)?);
+            let tries = case["tries"].as_u64().unwrap_or(1);
+            let mut variants: Vec<Value> = vec![];
+            for _ in 0..tries {
+                let mut rep: HashMap<u64, Function> = HashMap::new();
+                for (k, v) in case["replacements"].as_object().ok_or_else(|| anyhow!("replacements"))? {
+                    rep.insert(k.parse()?, msg(v)?);
+                }
+                let r = match f.substitute(&rep) {
+                    Ok(g) => json!({"ok": {"f": enc(&g)}}),
+                    Err(e) => errv(e),
+                };
+                if !variants.contains(&r) {
+                    variants.push(r);
+                }
             }
-            match f.substitute(&rep) {
-                Ok(g) => json!({"ok": {"f": enc(&g)}}),
-                Err(e) => errv(e),
+            if tries > 1 {
+                json!({"variants": variants})
+            } else {
+                variants.remove(0)
             }
         }
         "evaluate_instance" => {
@@ -248,7 +262,12 @@ pub fn run(case: &Value) -> Result<Value> {
                             gets.insert(i.to_string(), r);
                         }
                     }
-                    json!({"ok": {"sample_set": enc(&ss), "used": ids(used), "get": gets}})
+                    let ns = match ss.num_samples() {
+                        Ok(n) => json!({"ok": n}),
+                        Err(e) => errv(e),
+                    };
+                    json!({"ok": {"sample_set": enc(&ss), "used": ids(used), "get": gets,
+                                  "sample_ids": ids(ss.sample_ids()), "num_samples": ns}})
                 }
                 Err(e) => errv(e),
             }
